@@ -39,6 +39,7 @@ type role struct {
 	rotator bool
 	inCS    bool   // holds writeMu as far as the hook points tell (scheduler goroutine only)
 	locking bool   // current op takes writeMu (set by the role before the call)
+	storing bool   // current op is StoreLogs: the append-level points park only then
 	last    string // last point it parked at
 	ack     bool   // rotator: arrival at runRotate.received already consumed by a schedule element
 }
@@ -55,6 +56,8 @@ type scheduler struct {
 	trace   []string
 	settleT time.Duration
 }
+
+var appendPoints = map[string]bool{"Append.buffered": true, "vfs.sync": true, "sync.durable": true}
 
 var preLock = map[string]bool{"StoreLogs.checked": true, "DeleteRange.checked": true, "Close.flagSet": true,
 	"runRotate.received": true, "awaitRotation.waiting": true}
@@ -98,6 +101,9 @@ func (s *scheduler) hook(point string) {
 	if r == nil {
 		return
 	}
+	if appendPoints[point] && !r.storing {
+		return // ForceSeal / recovery also sync; only StoreLogs parks there
+	}
 	r.parked.Store(point)
 	<-r.release
 }
@@ -123,8 +129,8 @@ func (s *scheduler) addRole(name string, fn func(r *role)) *role {
 }
 
 // adoptRotator registers the already running rotation goroutine of a WAL.
-func (s *scheduler) adoptRotator() *role {
-	gid := findGoroutine("raft-wal.(*WAL).runRotate")
+func (s *scheduler) adoptRotator(before map[uint64]bool) *role {
+	gid := findGoroutine("raft-wal.(*WAL).runRotate", before)
 	r := &role{id: len(s.roles), name: "R", release: make(chan struct{}), rotator: true, gid: gid}
 	r.parked.Store("")
 	s.roles = append(s.roles, r)
@@ -181,10 +187,23 @@ func allGoroutines() map[uint64]gstate {
 	return res
 }
 
-func findGoroutine(sub string) uint64 {
+// gidsMatching: ids of the goroutines whose stack mentions sub
+func gidsMatching(sub string) map[uint64]bool {
+	m := map[uint64]bool{}
+	for id, g := range allGoroutines() {
+		if strings.Contains(g.text, sub) {
+			m[id] = true
+		}
+	}
+	return m
+}
+
+// findGoroutine: a goroutine whose stack mentions sub and that is not in `before`
+// (rotation goroutines of earlier cases may still be on their way out)
+func findGoroutine(sub string, before map[uint64]bool) uint64 {
 	for i := 0; i < 200; i++ {
 		for id, g := range allGoroutines() {
-			if strings.Contains(g.text, sub) {
+			if strings.Contains(g.text, sub) && !before[id] {
 				return id
 			}
 		}
